@@ -4,6 +4,7 @@
 From Coq Require Import ZArith List Bool String Reals.
 From VQ Require Import Num Model.Vec Model.Core Model.Residual Proofs.CoreNearest Proofs.ResidualProofs Proofs.CodecProofs Glue.CoreGlue Glue.Pin_p_residual Glue.Pin_p_decode.
 From VQ Require Import Model.Einops Model.Layout Glue.EinopsGlueBase Glue.EinopsGlueMore.
+From VQ Require Import Model.Machine Model.History Proofs.HistoryProofs.
 Import ListNotations.
 Open Scope R_scope.
 
@@ -176,3 +177,12 @@ Theorem C02_src_lfq_decode_layout :
   forall A : Type, @is_cfirst_out A pr_scalar.pr_scalar "LFQ.indices_to_codes:codes" 1.
 Proof. exact (@EinopsGlueMore.einops_lfq_decode_out). Qed.
 Print Assumptions C02_src_lfq_decode_layout.
+
+(* implicit *)
+Theorem C02_history_decode_reads_current_codebook :
+  forall (F : Type) (o : ops F) (fsqrt : F -> F) (cfg : ccfg F) (s : cstate F) 
+         (hs : list (hop F)) (s0 : cstate F) (idx : list nat) (cs : list (vec F)),
+       @In (cstate F * op F * out F) (s0, @Decode F idx, @Codes F cs) (@htrace F o fsqrt cfg s hs) ->
+       cs = @decode F s0 idx.
+Proof. exact (@HistoryProofs.history_decode_reads_current_codebook). Qed.
+Print Assumptions C02_history_decode_reads_current_codebook.
